@@ -63,6 +63,17 @@ def doc_phase_jump_time(obj) -> int:
     return int(2 * doc_rise_time(obj) if c is None else c)
 
 
+def doc_fall_time(pulse, ch, in_eom: bool) -> int:
+    """Documented fall time of a pulse on a channel: the rise time of the modulation in effect (the
+    EOM's in EOM mode) plus the longer of the end buffers of its amplitude and of its detuning
+    (recomputed from the waveforms; `Pulse.fall_time` itself is under test)."""
+    if not getattr(ch, "mod_bandwidth", None):
+        return 0
+    rise = doc_rise_time(ch.eom_config if in_eom else ch)
+    return int(rise + max(pulse.amplitude.modulation_buffers(ch, eom=in_eom)[1],
+                          pulse.detuning.modulation_buffers(ch, eom=in_eom)[1]))
+
+
 def make_eom(e: dict) -> RydbergEOM:
     beams = {"BLUE": RydbergBeam.BLUE, "RED": RydbergBeam.RED}
     return RydbergEOM(
@@ -444,12 +455,25 @@ class RealSeq:
                         {q: w[i] for i, q in enumerate(self.dev.qids)}
                     )
                     seq.config_detuning_map(dm, f"dmm_{op['id']}")
+                elif k == "slm":
+                    # (outside the alphabet of the scheduler model: only the C18 generator draws it)
+                    seq.config_slm_mask(self.qids(op["qs"]), f"dmm_{op['id']}")
+                # (`kw`: the same call written with keyword arguments — the record of calls then holds them
+                # as keywords, which is what the replaying code paths have to cope with)
+                elif k == "target" and op.get("kw"):
+                    seq.target(qubits=self.qids(op["qs"]), channel=real_name(op["ch"]))
                 elif k == "target":
                     seq.target(self.qids(op["qs"]), real_name(op["ch"]))
+                elif k == "add" and op.get("kw"):
+                    seq.add(pulse=make_pulse(op["pulse"]), channel=real_name(op["ch"]), protocol=op["proto"])
                 elif k == "add":
                     seq.add(make_pulse(op["pulse"]), real_name(op["ch"]), op["proto"])
+                elif k == "adddmm" and op.get("kw"):
+                    seq.add_dmm_detuning(waveform=make_wf(op["wf"]), dmm_name=real_name(op["ch"]), protocol=op["proto"])
                 elif k == "adddmm":
                     seq.add_dmm_detuning(make_wf(op["wf"]), real_name(op["ch"]), op["proto"])
+                elif k == "delay" and op.get("kw"):
+                    seq.delay(duration=op["d"], channel=real_name(op["ch"]), at_rest=op.get("at_rest", False))
                 elif k == "addeom":
                     seq.add_eom_pulse(
                         real_name(op["ch"]),
